@@ -24,7 +24,15 @@ static bool sqlIs(const char* a, const char* b) { return strcmp(a, b) == 0; }
 static void mutation() { if (!m_inTxn) m_mutationsOutsideTxn++; }
 // (rows are named by index, never by pointer difference: symex does not fold `p - base`, and a symbolic row index makes every column symbolic)
 static int keyIdxById(long long id) { for (int i = 0; i < 4; i++) if (m_keys[i].used && m_keys[i].id == id) return i; return -1; }
-static int keyIdxByBlob(const Blob& k) { for (int i = 0; i < 4; i++) if (m_keys[i].used && m_keys[i].key.n == k.n && memcmp(m_keys[i].key.b, k.b, k.n) == 0) return i; return -1; }
+// Key lookup: the harness uses keys of pairwise DISTINCT LENGTHS, so the row is selected by length (a concrete number for symex)
+// and the byte comparison - which symex cannot fold once the bytes went through std::string copies - is an ASSERTION about the
+// selected row instead of a branch: a key that has the length of a stored key but other bytes is reported, not silently matched.
+static int keyIdxByBlob(const Blob& k) {
+  for (int i = 0; i < 4; i++) if (m_keys[i].used && m_keys[i].key.n == k.n) {
+    bool eq = true; for (int j = 0; j < 16; j++) if (j < k.n && m_keys[i].key.b[j] != k.b[j]) eq = false;
+    VF_ASSERT(eq, "a key looked up in the database has exactly the bytes it was stored with"); if (!eq) VF_STOP();
+    return i; }
+  return -1; }
 static int resIdxByKeyId(long long id) { for (int i = 0; i < 2; i++) if (m_res[i].used && m_res[i].key_id == id) return i; return -1; }
 static KeyRow* keyById(long long id) { int i = keyIdxById(id); return i < 0 ? 0 : &m_keys[i]; }
 static KeyRow* keyByBlob(const Blob& k) { int i = keyIdxByBlob(k); return i < 0 ? 0 : &m_keys[i]; }
